@@ -612,13 +612,16 @@ func (t *Transport) gsReqRecdHook(p peer.ID, request graphsync.RequestData, hook
 			return
 		}
 
-		// Lock the channel for the duration of this method
+		// The message is processed before the channel is locked: the manager
+		// may wait for the channel's state machine, whose cleanup handler in
+		// turn waits for the channel lock (CleanupChannel)
 		ch = t.trackDTChannel(chid)
-		ch.lk.Lock()
-		defer ch.lk.Unlock()
-
 		request := msg.(datatransfer.Request)
 		responseMessage, err = t.events.OnRequestReceived(chid, request)
+
+		// Lock the channel for the rest of this method
+		ch.lk.Lock()
+		defer ch.lk.Unlock()
 	} else {
 		// when a data transfer response comes in on graphsync, this node
 		// initiated a push, and the remote peer responded with a request
@@ -627,13 +630,22 @@ func (t *Transport) gsReqRecdHook(p peer.ID, request graphsync.RequestData, hook
 
 		log.Debugf("%s: received request for data (push), req_id=%d", chid, request.ID())
 
-		// Lock the channel for the duration of this method
+		// As above: process the message, then lock the channel for the rest
+		// of this method
 		ch = t.trackDTChannel(chid)
-		ch.lk.Lock()
-		defer ch.lk.Unlock()
-
 		response := msg.(datatransfer.Response)
 		err = t.events.OnResponseReceived(chid, response)
+
+		ch.lk.Lock()
+		defer ch.lk.Unlock()
+	}
+
+	// The channel may have been cleaned up while the message was processed
+	// (eg the message itself ended the channel): there is nothing to serve
+	if ch.cleanedUp {
+		log.Infof("%s: channel was cleaned up, terminating req_id=%d", chid, request.ID())
+		hookActions.TerminateWithError(errors.New("data transfer channel was cleaned up"))
+		return
 	}
 
 	// If we need to send a response, add the response message as an extension
@@ -935,6 +947,7 @@ type dtChannel struct {
 	// and pause / resume wait for that same loop while they hold lk
 	requesterCancelled atomic.Bool
 	xferStarted        bool
+	cleanedUp          bool
 	pendingExtensions  []graphsync.ExtensionData
 
 	opened chan graphsync.RequestID
@@ -1222,6 +1235,7 @@ func (c *dtChannel) cleanup() {
 	defer c.lk.Unlock()
 
 	log.Debugf("%s: cleaning up channel", c.channelID)
+	c.cleanedUp = true
 
 	if c.hasStore() {
 		// Unregister the channel's store from graphsync
